@@ -1090,8 +1090,8 @@ def engine_pool(tier, seed):
     runs = [dict(bufs=2, takes=3, rounds=0, pre=2, maxexec=1200), dict(bufs=2, takes=3, rounds=1, pre=1, maxexec=500),
             dict(bufs=4, takes=2, rounds=0, pre=1, maxexec=400)]
     if tier == 'thorough':
-        runs = [dict(bufs=2, takes=3, rounds=0, pre=2, maxexec=40000), dict(bufs=2, takes=3, rounds=1, pre=2, maxexec=20000),
-                dict(bufs=4, takes=3, rounds=0, pre=1, maxexec=20000), dict(bufs=2, takes=2, rounds=3, pre=1, maxexec=5000)]
+        runs = [dict(bufs=2, takes=3, rounds=0, pre=2, maxexec=8000), dict(bufs=2, takes=3, rounds=1, pre=2, maxexec=5000),
+                dict(bufs=4, takes=3, rounds=0, pre=1, maxexec=4000), dict(bufs=2, takes=2, rounds=3, pre=1, maxexec=2000)]
     for i, rn in enumerate(runs):
         outdir = os.path.join(BUILD, 'replay', 'pool_%d' % i)
         args = ['--bufs', str(rn['bufs']), '--takes', str(rn['takes']), '--rounds', str(rn['rounds']), '--preemptions', str(rn['pre']),
